@@ -174,11 +174,13 @@ func recheck(oracle string, ops, res []string) (bool, string) {
 	return false, ""
 }
 
-// classify: negations of the hypotheses of the partial theorems in Props/C12.lean.
+// classify: negation of the hypothesis of the partial theorems in Props/C12.lean.
 //
 //	F-C12-mvn-intrans   ¬CmpLawful: the ecosystem comparison is not a total order on the
 //	                     list's versions (Maven only; C01 finding F-C01-mvn-zeroq).
-//	F-C12-latest-substr ¬TagsExact: some tag string contains "latest" other than as a whole tag.
+//
+// (F-C12-latest-substr is fixed: nothing is tolerated on npm lists any more; tags that merely
+// contain "latest" - notlatest, latest-2 - are regression inputs of the oracles order/exact.)
 func classify(oracle string, ops, res []string) string {
 	p := parseOp(ops[0], res[0])
 	if !p.plain {
@@ -186,9 +188,6 @@ func classify(oracle string, ops, res []string) string {
 	}
 	if p.sys == resolve.Maven && (oracle == "order" || oracle == "perm") && !resolveops.Lawful(semver.Maven, resolveops.Strings(p.in)) {
 		return "F-C12-mvn-intrans"
-	}
-	if p.sys == resolve.NPM && (oracle == "order" || oracle == "exact") && !resolveops.TagsExact(p.in) {
-		return "F-C12-latest-substr"
 	}
 	return ""
 }
@@ -234,8 +233,10 @@ func genList(r *rand.Rand, sys resolve.System, n int, gen func() string) []V {
 	return vs
 }
 
-// decorate assigns tags and flags: "latest" on any one version, other dist-tags,
-// substring look-alikes of "latest", a second "latest", deprecated/error/deleted flags.
+// decorate assigns tags and flags: "latest" on any one version (alone, first, last, in the
+// middle of a tag list, after an empty tag), other dist-tags, a second "latest", substring
+// look-alikes of "latest" (regression inputs of the fixed finding F-C12-latest-substr: they
+// are not the tag latest), deprecated/error/deleted flags.
 func decorate(r *rand.Rand, vs []V) {
 	if len(vs) == 0 {
 		return
@@ -250,15 +251,15 @@ func decorate(r *rand.Rand, vs []V) {
 	}
 	if r.Intn(2) == 0 {
 		i := r.Intn(len(vs))
-		vs[i].HasTags, vs[i].Tags = true, semverops.Pick(r, "latest", "latest", "latest,next", "next,latest", "beta,latest,next")
+		vs[i].HasTags, vs[i].Tags = true, semverops.Pick(r, "latest", "latest", "latest,next", "next,latest", "beta,latest,next", ",latest", "latest,")
 	}
 	if r.Intn(12) == 0 {
 		i := r.Intn(len(vs))
 		vs[i].HasTags, vs[i].Tags = true, "latest"
 	}
-	if r.Intn(16) == 0 {
+	if r.Intn(8) == 0 {
 		i := r.Intn(len(vs))
-		vs[i].HasTags, vs[i].Tags = true, semverops.Pick(r, "notlatest", "latest-2", "prelatest,next", "oldlatest", "next,latestx")
+		vs[i].HasTags, vs[i].Tags = true, semverops.Pick(r, "notlatest", "latest-2", "prelatest,next", "oldlatest", "next,latestx", "latestx", "Latest", "latest ")
 	}
 }
 
@@ -378,7 +379,7 @@ func caseOf(c *fw.Ctx, sys resolve.System, vs []V, req string, perms int) {
 		} else if pv.IsPrerelease() {
 			pre++
 		}
-		if strings.Contains(v.Tags, "latest") {
+		if resolveops.ExactLatest(v.Tags) {
 			lat++
 		}
 	}
@@ -391,8 +392,11 @@ func caseOf(c *fw.Ctx, sys resolve.System, vs []V, req string, perms int) {
 	if lat > 0 {
 		c.Count(name + ":list:has-latest")
 	}
-	if !resolveops.TagsExact(vs) {
-		c.Count(name + ":list:latest-substring")
+	if resolveops.LatestLookalike(vs) {
+		c.Count(name + ":list:latest-lookalike")
+		if lat > 0 {
+			c.Count(name + ":list:latest-and-lookalike")
+		}
 	}
 	if !resolveops.Lawful(resolveops.Semver(sys), resolveops.Strings(vs)) {
 		c.Count(name + ":list:unlawful-order")
@@ -519,7 +523,7 @@ func exec(f []string) string { return resolveops.ExecC12(f) }
 func main() {
 	fw.Main(&fw.Prop{
 		ID: "C12",
-		Rule: "per system (NPM, Maven, PyPI): lists of 0..24 records with pairwise distinct version strings drawn from a collision-rich pool (equal-comparing spellings 1.0/1.0.0/v1.0.0/+build, prereleases, unparsable strings) and the semver generators; tags: latest on any one version, other dist-tags, a second latest, substring look-alikes (notlatest, latest-2); deprecated/error/deleted flags; requirements from the constraint grammar, derived from list members (op+version), dist-tag names, exact strings, malformed; each case = base order + 5 permutations + SortVersions (+2 permutations); oracles exact (independent filter through util/semver; npm non-range = string/tag selection, first in order), order (ascending, npm latest last unless prerelease while releases exist), perm (identical results). Plus: exhaustive NPM lists of ≤3 of 6 versions × latest position × 4 requirements; Maven lists seeded with intransitive shapes; a correspondence-only stream with duplicate strings / mixed systems, names, types. Distinct non-trivial = distinct (system, requirement, record set) whose result is a proper non-empty selection.",
+		Rule: "per system (NPM, Maven, PyPI): lists of 0..24 records with pairwise distinct version strings drawn from a collision-rich pool (equal-comparing spellings 1.0/1.0.0/v1.0.0/+build, prereleases, unparsable strings) and the semver generators; tags: latest on any one version (alone or inside a comma-separated list, also next to an empty tag), other dist-tags, a second latest, substring look-alikes that are NOT the tag latest (notlatest, latest-2, latestx: regression inputs of the fixed finding F-C12-latest-substr, nothing tolerated); deprecated/error/deleted flags; requirements from the constraint grammar, derived from list members (op+version), dist-tag names, exact strings, malformed; each case = base order + 5 permutations + SortVersions (+2 permutations); oracles exact (independent filter through util/semver; npm non-range = string/tag selection, first in order), order (ascending, npm latest last unless prerelease while releases exist), perm (identical results). Plus: exhaustive NPM lists of ≤3 of 6 versions × latest position × 4 requirements; Maven lists seeded with intransitive shapes; a correspondence-only stream with duplicate strings / mixed systems, names, types. Distinct non-trivial = distinct (system, requirement, record set) whose result is a proper non-empty selection.",
 		Exec: exec, Run: run, Recheck: recheck, Classify: classify,
 		Gens: semvergen.Generators(),
 	})
